@@ -41,4 +41,9 @@ structure RecPair where
   enc : List RecArm
   dec : List RecArm
 
+/-- How a timestamp field is written: as an integer number of units of `unitNs` nanoseconds
+(`time::serde::timestamp` = seconds: `unitNs = 10^9`; RFC 3339 text keeps nanoseconds: 1). -/
+structure TimeCodec where
+  unitNs : Nat
+
 end Kanidm.StoreCodec
